@@ -17,6 +17,7 @@ from . import paths
 # (translator module, output file under coq/Gen)
 TRANSLATORS = [
     ('translator.gen_lut', 'GenLut.v'),
+    ('translator.gen_consts', 'GenConsts.v'),
 ]
 
 FORBIDDEN = re.compile(r'\b(Admitted|admit|Axiom|Axioms|Parameter|Parameters|Conjecture|Conjectures|Abort All)\b'
